@@ -65,15 +65,30 @@ type Term struct {
 	smt  string // cached printed form (for small terms) — filled lazily
 }
 
+type termKey struct {
+	op         Op
+	w          int
+	c          uint64
+	hi, lo     int
+	name       string
+	a0, a1, a2 int
+}
+
+type constKey struct {
+	w int
+	c uint64
+}
+
 type TermTable struct {
-	tab   map[string]*Term
-	next  int
-	vars  []*Term
-	varBy map[string]*Term
+	tab    map[termKey]*Term
+	consts map[constKey]*Term
+	next   int
+	vars   []*Term
+	varBy  map[string]*Term
 }
 
 func NewTermTable() *TermTable {
-	return &TermTable{tab: map[string]*Term{}, varBy: map[string]*Term{}}
+	return &TermTable{tab: map[termKey]*Term{}, consts: map[constKey]*Term{}, varBy: map[string]*Term{}}
 }
 
 func mask(w int) uint64 {
@@ -87,12 +102,17 @@ func mask(w int) uint64 {
 }
 
 func (tt *TermTable) intern(t *Term) *Term {
-	var sb strings.Builder
-	fmt.Fprintf(&sb, "%d:%d:%d:%d:%d:%s", t.op, t.w, t.c, t.hi, t.lo, t.name)
-	for _, a := range t.args {
-		fmt.Fprintf(&sb, ",%d", a.id)
+	k := termKey{op: t.op, w: t.w, c: t.c, hi: t.hi, lo: t.lo, name: t.name}
+	switch len(t.args) {
+	case 3:
+		k.a2 = t.args[2].id
+		fallthrough
+	case 2:
+		k.a1 = t.args[1].id
+		fallthrough
+	case 1:
+		k.a0 = t.args[0].id
 	}
-	k := sb.String()
 	if x, ok := tt.tab[k]; ok {
 		return x
 	}
@@ -103,7 +123,15 @@ func (tt *TermTable) intern(t *Term) *Term {
 }
 
 func (tt *TermTable) Const(w int, v uint64) *Term {
-	return tt.intern(&Term{op: OpConst, w: w, c: v & mask(w)})
+	v &= mask(w)
+	k := constKey{w, v}
+	if x, ok := tt.consts[k]; ok {
+		return x
+	}
+	tt.next++
+	x := &Term{op: OpConst, w: w, c: v, id: tt.next}
+	tt.consts[k] = x
+	return x
 }
 func (tt *TermTable) Bool(b bool) *Term {
 	if b {
